@@ -43,6 +43,12 @@ pub struct ConnCase {
     /// IPv6 bind address configured that this host does not have (bind fails synchronously)
     #[serde(default)]
     pub setup_fails_first: bool,
+    /// an extra first candidate whose connect neither succeeds nor fails for a long time (a
+    /// listener whose accept queue is full: further SYNs are dropped). Only used with
+    /// concurrency 1 and an overall timeout of 4 s, so that the stagger delay (timeout / number of
+    /// candidates) is what starts the next attempt.
+    #[serde(default)]
+    pub hanging_first: bool,
 }
 
 pub struct RealConnectSim {
@@ -63,11 +69,16 @@ fn enumerated() -> Vec<ConnCase> {
                             if setup_fails_first && n > 3 {
                                 continue;
                             }
-                            v.push(ConnCase { seed: 3, listening: (0..n).map(|i| mask & (1 << i) != 0).collect(), concurrency, timeout_ms, via, setup_fails_first });
+                            v.push(ConnCase { seed: 3, listening: (0..n).map(|i| mask & (1 << i) != 0).collect(), concurrency, timeout_ms, via, setup_fails_first, hanging_first: false });
                         }
                     }
                 }
             }
+        }
+    }
+    for listening in [vec![true], vec![false, true], vec![true, true]] {
+        for via in [Via::Addrs, Via::Call] {
+            v.push(ConnCase { seed: 3, listening: listening.clone(), concurrency: Some(1), timeout_ms: Some(4000), via, setup_fails_first: false, hanging_first: true });
         }
     }
     v
@@ -110,6 +121,31 @@ fn setup(listening: &[bool]) -> std::io::Result<(u16, Vec<Option<std::net::TcpLi
     Err(std::io::Error::other("no common free port found"))
 }
 
+/// A loopback address on which a connect stays pending: a listener with the smallest backlog whose
+/// accept queue has been filled (Linux then drops further SYNs). Returns the sockets that must be
+/// kept alive, and whether a probe connect really stayed pending.
+fn hanging_listener(addr: SocketAddrV4) -> std::io::Result<(Vec<Box<dyn std::any::Any>>, bool)> {
+    use socket2::{Domain, SockAddr, Socket, Type};
+    let l = Socket::new(Domain::IPV4, Type::STREAM, None)?;
+    l.set_reuse_address(true)?;
+    l.bind(&SockAddr::from(addr))?;
+    l.listen(0)?;
+    let mut keep: Vec<Box<dyn std::any::Any>> = vec![];
+    let mut hangs = false;
+    for _ in 0..8 {
+        match std::net::TcpStream::connect_timeout(&SocketAddr::V4(addr), Duration::from_millis(150)) {
+            Ok(s) => keep.push(Box::new(s)),
+            Err(e) if e.kind() == std::io::ErrorKind::TimedOut => {
+                hangs = true;
+                break;
+            }
+            Err(_) => break,
+        }
+    }
+    keep.push(Box::new(l));
+    Ok((keep, hangs))
+}
+
 impl Scenario for RealConnectSim {
     type Case = ConnCase;
 
@@ -119,7 +155,7 @@ impl Scenario for RealConnectSim {
 
     fn info(&self) -> ScenarioInfo {
         ScenarioInfo {
-            rule: "TcpTransport (connect_to_addrs, and tower::Service::call with a static resolver) against 0..5 candidate addresses 127.<process>.<thread>.(20+i):P, each either listening (never accepting: the backlog count says whether it was attempted) or closed (refuses at once), optionally preceded by a candidate whose socket cannot be set up (IPv6 address with an unbindable local IPv6 address configured), x happy_eyeballs_concurrency {None, 1, 2} x happy_eyeballs_timeout {None, 30 s}; all combinations up to 4 candidates enumerated, seeded beyond. Oracle (C10): Ok iff some candidate listens, the returned stream's peer is a listening candidate, with no candidates it fails at once (not at the deadline), with all refusing the error is a refusal; (C11): with concurrency 1 the winner is the first listening candidate in the given order and no later candidate was attempted; with concurrency 2 nothing beyond the second candidate after the last failure before the winner was attempted; every candidate is attempted at most once; the port of the URI is used for every address.".into(),
+            rule: "TcpTransport (connect_to_addrs, and tower::Service::call with a static resolver) against 0..5 candidate addresses 127.<process>.<thread>.(20+i):P, each either listening (never accepting: the backlog count says whether it was attempted) or closed (refuses at once), optionally preceded by a candidate whose socket cannot be set up (IPv6 address with an unbindable local IPv6 address configured) or by one whose connect stays pending (listener with a full accept queue; then with a 4 s overall timeout and concurrency 1, so that only the stagger delay = timeout / candidates starts the next attempt), x happy_eyeballs_concurrency {None, 1, 2} x happy_eyeballs_timeout {None, 30 s}; all combinations up to 4 candidates enumerated, seeded beyond. Oracle (C10): Ok iff some candidate listens, the returned stream's peer is a listening candidate, with no candidates it fails at once (not at the deadline), with all refusing the error is a refusal; (C11): with concurrency 1 the winner is the first listening candidate in the given order and no later candidate was attempted; with concurrency 2 nothing beyond the second candidate after the last failure before the winner was attempted; every candidate is attempted at most once; the port of the URI is used for every address.".into(),
             real: vec![
                 "client::conn::transport::tcp::{TcpTransport, TcpConnecting, TcpConnectionAttempt, connect()}, dns::SocketAddrs (pop order, set_port, sort_preferred with one family), happy_eyeballs::EyeballSet, stream::tcp::TcpStream",
                 "Linux loopback TCP (real kernel sockets; accept and refuse are immediate there)",
@@ -147,6 +183,7 @@ impl Scenario for RealConnectSim {
             timeout_ms: *r.pick(&[None, Some(30_000u64)]),
             via: *r.pick(&[Via::Addrs, Via::Call]),
             setup_fails_first: r.chance(1, 4),
+            hanging_first: false,
         }
     }
 
@@ -164,7 +201,25 @@ impl Scenario for RealConnectSim {
         let addrs: Vec<SocketAddr> = (0..case.listening.len()).map(|i| SocketAddr::V4(SocketAddrV4::new(candidate_ip(i), port))).collect();
         // what is handed to the transport: optionally with the candidate in front that cannot be set up
         let bad: SocketAddr = SocketAddr::new("2001:db8::5".parse().unwrap(), port);
-        let offered: Vec<SocketAddr> = if case.setup_fails_first { std::iter::once(bad).chain(addrs.iter().copied()).collect() } else { addrs.clone() };
+        let hang_addr = SocketAddrV4::new(candidate_ip(100), port);
+        let (_hang_keep, hangs) = if case.hanging_first {
+            match hanging_listener(hang_addr) {
+                Ok(x) => x,
+                Err(e) => {
+                    out.harness_error = Some(format!("harness: hanging listener: {}", e));
+                    return out;
+                }
+            }
+        } else {
+            (vec![], false)
+        };
+        let offered: Vec<SocketAddr> = if case.setup_fails_first {
+            std::iter::once(bad).chain(addrs.iter().copied()).collect()
+        } else if case.hanging_first {
+            std::iter::once(SocketAddr::V4(hang_addr)).chain(addrs.iter().copied()).collect()
+        } else {
+            addrs.clone()
+        };
         let rt = tokio::runtime::Builder::new_current_thread().enable_all().build().expect("runtime");
         let started = std::time::Instant::now();
         let res = std::panic::catch_unwind(std::panic::AssertUnwindSafe(|| {
@@ -247,6 +302,9 @@ impl Scenario for RealConnectSim {
         for l in &case.listening {
             out.count(if *l { "probe.candidate_listening" } else { "fault.candidate_refuses" });
         }
+        if case.hanging_first {
+            out.count(if hangs { "fault.candidate_connect_hangs" } else { "probe.hanging_candidate_not_reproducible_here" });
+        }
         out.nontrivial = n >= 2;
         out.sim_ms = started.elapsed().as_millis() as u64;
         let csig = json!({"via": format!("{:?}", case.via), "concurrency": case.concurrency});
@@ -255,7 +313,10 @@ impl Scenario for RealConnectSim {
             Ok(Some(Ok(peer))) => addrs.iter().position(|a| a == peer),
             _ => None,
         };
+        // the hanging candidate may accept after all (a retransmitted SYN getting through): fine
+        let hanging_won = case.hanging_first && matches!(&res, Ok(Some(Ok(peer))) if *peer == SocketAddr::V4(hang_addr));
         match &res {
+            _ if hanging_won => log.push(3),
             Err(e) if e == "HANG" => v10("connect_hangs", format!("{:?}: no result within 10 s", case)),
             Err(e) => {
                 log.push(2);
@@ -295,7 +356,7 @@ impl Scenario for RealConnectSim {
         // setup); each failure must start the next attempt, so the first listening candidate is
         // always reached - whatever the operation then reports
         if let Some(fl) = first_listening {
-            if attempted[fl].unwrap_or(0) == 0 {
+            if attempted[fl].unwrap_or(0) == 0 && !case.hanging_first {
                 v11(
                     "not_started_after_failure",
                     format!(
@@ -312,7 +373,7 @@ impl Scenario for RealConnectSim {
                 }
             }
         }
-        if let (Some(w), Some(fl)) = (winner, first_listening) {
+        if let (Some(w), Some(fl), false) = (winner, first_listening, case.hanging_first) {
             if case.concurrency == Some(1) {
                 if w != fl {
                     v11("wrong_winner_sequential", format!("concurrency 1, candidates {:?}: winner is {}, the first listening candidate is {}", case.listening, w, fl));
@@ -362,6 +423,11 @@ impl Scenario for RealConnectSim {
         if case.setup_fails_first {
             let mut c = case.clone();
             c.setup_fails_first = false;
+            v.push(c);
+        }
+        if case.hanging_first {
+            let mut c = case.clone();
+            c.hanging_first = false;
             v.push(c);
         }
         v
